@@ -51,6 +51,12 @@ var prop = &vt.Prop[Case]{
 	Classify: func(c *Case) (bool, []string) {
 		return c.Prog.NonTrivial(), c.Prog.Classes(c.res)
 	},
+	Excluded: func(c *Case) []string {
+		if c.Prog.SparseCapped > 0 {
+			return []string{wprog.FindingSparseXRef}
+		}
+		return nil
+	},
 	Render: func(c *Case) any {
 		var ops []string
 		for _, a := range c.Prog.Actions {
